@@ -29,8 +29,15 @@ def to_smt2(ob, use_lemmas=True):
     return s.to_smt2()
 
 
+_OBS = None        # obligations of the current discharge() call, inherited by the forked workers
+
+
 def _solve_one(args):
     idx, smt2 = args
+    if smt2 is None:
+        # the SMT-LIB text (with its ground lemma instances) is produced in the worker: instance generation is the
+        # expensive python part and runs in parallel this way (the z3 terms are inherited through fork, read-only)
+        smt2 = to_smt2(_OBS[idx])
     t0 = time.time()
     # attempt 1: products of two unknowns treated as uninterpreted (sound for `unsat`: fewer axioms). Most VCs need
     # only congruence on such products; this avoids the unstable nonlinear engine. Any other answer is discarded.
@@ -87,6 +94,8 @@ def _solve_one(args):
 
 def _cvc5_one(args):
     idx, smt2 = args
+    if smt2 is None:
+        smt2 = to_smt2(_OBS[idx])
     with tempfile.NamedTemporaryFile('w', suffix='.smt2', delete=False) as f:
         f.write('(set-logic ALL)\n' + smt2 + ('' if 'check-sat' in smt2 else '\n(check-sat)\n'))
         path = f.name
@@ -103,7 +112,9 @@ def _cvc5_one(args):
 def cross_check(obligations, procs=16):
     """thorough tier: every non-trivial VC is also given to cvc5 (20 s); a proved/refuted DISAGREEMENT is an engine problem.
     returns dict(agree=, unknown=, disagree=[idents])"""
-    jobs = [(i, to_smt2(ob)) for i, ob in enumerate(obligations) if ob.backend != 'trivial' and ob.verdict in ('proved', 'refuted')]
+    global _OBS
+    _OBS = obligations
+    jobs = [(i, None) for i, ob in enumerate(obligations) if ob.backend != 'trivial' and ob.verdict in ('proved', 'refuted')]
     res = {'agree': 0, 'unknown': 0, 'disagree': []}
     if not jobs or not os.path.exists('/usr/bin/cvc5'):
         return res
@@ -129,12 +140,14 @@ def discharge(obligations, procs=None):
         if z3.is_true(g):
             ob.verdict, ob.backend, ob.time = 'proved', 'trivial', 0.0
             continue
-        jobs.append((i, to_smt2(ob)))
+        jobs.append((i, None))
     total = 0.0
+    global _OBS
+    _OBS = obligations
     if jobs:
         procs = procs or min(16, len(jobs))
         if procs <= 1 or len(jobs) <= 2:
-            results = map(_solve_one, jobs)
+            results = list(map(_solve_one, jobs))
         else:
             ctx = mp.get_context('fork')
             with ctx.Pool(procs) as pool:
